@@ -28,7 +28,8 @@ func init() {
 			"type switch of fmtInt has a case for every built-in integer type, each converting through the matching assertion into the variable of matching signedness " +
 			"(found F2); (R3) the scratch buffer is assigned only by its initialiser, its length is maxBufSize+1, the width is clamped below maxBufSize before use and the " +
 			"digit loop stores under right < maxBufSize; (R4) args[i] is read only under i < len(args) whose other side writes the missing-argument marker, each type " +
-			"switch's default writes the wrong-type marker, the trailing loop writes one surplus marker per unused argument.",
+			"switch's default writes the wrong-type marker, the trailing loop writes one surplus marker per unused argument; (R5) the decimal width is accumulated as 10*padLen + " +
+			"(ch - '0') on every digit edge, without any further condition.",
 		EnumRule:    "obligations per rule and construct (closure function / call site / integer type / marker)",
 		Assumptions: []string{"the Go compiler's escape analysis (the toolchain in this sandbox) is the authority for boxing and address-taken locals", "exact output text is not decided"},
 		Controls: []Control{
@@ -42,6 +43,7 @@ func init() {
 			{Name: "args read without the bound test", File: "kernel/kfmt/fmt.go", Old: "\t\t\t\tif nextArgIndex >= len(args) {\n\t\t\t\t\tdoWrite(w, errMissingArg)\n\t\t\t\t\tbreak parseFmt\n\t\t\t\t}\n", New: "", Expect: "C15.R4"},
 			{Name: "wrong-type default dropped from fmtString", File: "kernel/kfmt/fmt.go", Old: "\t\tdoWrite(w, castedVal)\n\tdefault:\n\t\tdoWrite(w, errWrongArgType)\n\t}", New: "\t\tdoWrite(w, castedVal)\n\t}", Expect: "C15.R4"},
 			{Name: "scratch buffer regrown", File: "kernel/kfmt/fmt.go", Old: "\t// Apply padding if required\n", New: "\tif padLen > len(numFmtBuf) {\n\t\tnumFmtBuf = make([]byte, padLen+2)\n\t}\n\t// Apply padding if required\n", Expect: "C15.R"},
+			{Name: "width digits ignored once the width is large", File: "kernel/kfmt/fmt.go", Old: "\t\t\t\tpadLen = (padLen * 10) + int(nextCh-'0')\n", New: "\t\t\t\tif padLen < maxBufSize {\n\t\t\t\t\tpadLen = (padLen * 10) + int(nextCh-'0')\n\t\t\t\t}\n", Expect: "C15.R5"},
 			{Name: "digit loop bound off by two", File: "kernel/kfmt/fmt.go", Old: "\tfor right < maxBufSize {", New: "\tfor right < maxBufSize+2 {", Expect: "C15.R3"},
 		},
 	})
@@ -646,6 +648,7 @@ func runC15(c *Ctx) {
 		}
 	}
 	c.check(extraOK, "C15.R4", "surplus-args kfmt.Fprintf", "one surplus marker per unused argument (loop nextArgIndex < len(args))", "unused arguments are not reported with the surplus marker", m.pos(fprintf.Pos()))
+	c15Width(c, fprintf)
 	// type switch defaults
 	for _, name := range []string{"fmtInt", "fmtString", "fmtBool"} {
 		fn := m.lookupFunc("kfmt", name)
@@ -689,6 +692,69 @@ func runC15(c *Ctx) {
 		}
 		c.check(bad == "", "C15.R4", "wrong-type kfmt."+name, fmt.Sprintf("%d typed case(s); every other type writes only the wrong-type marker", nas), bad, m.pos(fn.Pos()))
 	}
+}
+
+// c15Width: the decimal width of a verb is accumulated digit by digit without
+// any further condition: on every edge into a padLen merge point that is
+// dominated by the digit test ('0' <= ch <= '9') the merged value is
+// 10*padLen + (ch - '0').
+func c15Width(c *Ctx, fprintf *ssa.Function) {
+	m := c.K
+	c.floor("C15.R5", 1)
+	g := newIG(m, fprintf, nil)
+	z := &Polyizer{}
+	isDigitLo := func(f Fact) bool {
+		return cmpMatch(f, token.GEQ, func(v ssa.Value) bool { return true }, func(v ssa.Value) bool { k, ok := constInt64(v); return ok && k == '0' })
+	}
+	isDigitHi := func(f Fact) bool {
+		return cmpMatch(f, token.LEQ, func(v ssa.Value) bool { return true }, func(v ssa.Value) bool { k, ok := constInt64(v); return ok && k == '9' })
+	}
+	nphi, nedges := 0, 0
+	bad := ""
+	var where []string
+	for _, in := range g.Ins {
+		phi, ok := in.(*ssa.Phi)
+		if !ok || phi.Comment != "padLen" {
+			continue
+		}
+		nphi++
+		pe := g.predEdges(phi.Block())
+		for i, e := range phi.Edges {
+			ef := g.FactsAt(pe[i].From)
+			if ft, ok := g.EdgeFact(pe[i].From, pe[i].K); ok {
+				ef = append(ef, ft)
+			}
+			if !hasFact(ef, isDigitLo) || !hasFact(ef, isDigitHi) {
+				continue
+			}
+			nedges++
+			c.Evals++
+			pv := z.Of(e)
+			// 10*<padLen phi> + ch - 48
+			okForm := false
+			if pv[""] == -48 && len(pv) == 3 {
+				ten, ch := false, false
+				for k, v := range pv {
+					switch {
+					case k == "":
+					case v == 10 && strings.HasPrefix(k, "phi:padLen"):
+						ten = true
+					case v == 1:
+						ch = true
+					}
+				}
+				okForm = ten && ch
+			}
+			if !okForm {
+				bad = "after a width digit the width is " + pv.String() + ", expected 10*padLen + (digit - '0') unconditionally: part of the requested width is dropped"
+				where = append(where, g.posOf(pe[i].From))
+			}
+		}
+	}
+	if nphi == 0 || nedges == 0 {
+		bad = "no accumulation of the decimal width found in Fprintf (rule shape lost)"
+	}
+	c.check(bad == "", "C15.R5", "width-digits "+m.fnName(fprintf), fmt.Sprintf("%d digit edge(s) into the width merge points, all carrying 10*padLen + (ch - '0')", nedges), bad, where...)
 }
 
 func isWriterType(t types.Type) bool {
